@@ -136,6 +136,9 @@ impl Runner for SubprocessRunner {
                         OutputExitStatus::Unknown
                     }
                 } else if kind == ErrorKind::TimedOut {
+                    // abort the execution, do not leave the timed out shell running
+                    let _ = process.kill();
+                    let _ = process.wait();
                     OutputExitStatus::Timeout(testcase.config.timeout.unwrap_or_default())
                 } else {
                     OutputExitStatus::Unknown
